@@ -384,6 +384,45 @@ fn check_injection(o: &mut Out, base: &str, inj: &Inj, opts: Opts, base_frames: 
     }
 }
 
+/// After the error for an invalid structure has been returned, asking again must not hand out rows or frames after all
+/// (row by row up to the error, then three more row requests and two frame requests).
+fn check_polling_after_error(o: &mut Out, base: &str, inj: &Inj, opts: Opts) {
+    let mut rd = match open_reader(&inj.bytes, &[0], opts, 0, None) { Ok(Ok(r)) => r, _ => return };
+    o.direct_checks += 1;
+    let r = guarded(|| -> Option<String> {
+        let mut errored: Option<String> = None;
+        let mut after: Vec<String> = vec![];
+        let mut rows_left = 5000usize;
+        let mut frames_done = 0usize;
+        loop {
+            if errored.is_some() && after.len() >= 5 { break; }
+            let frame_call = errored.is_some() && after.len() >= 3;
+            if frame_call {
+                let (r, _) = do_next_frame(&mut rd, 0);
+                after.push(format!("next_frame: {}", r.split(' ').next().unwrap_or("")));
+            } else {
+                match rd.next_row() {
+                    Ok(Some(_)) => { if errored.is_some() { after.push("next_row: ok-row".into()); } rows_left -= 1; if rows_left == 0 { return None; } }
+                    Ok(None) => {
+                        if errored.is_some() { after.push("next_row: none".into()); continue; }
+                        frames_done += 1;
+                        if frames_done > 40 { return None; }
+                        // the frame is complete: go on to the next one (its first row request starts it)
+                        if rd.info().animation_control.map_or(true, |a| frames_done as u32 >= a.num_frames + 1) { return None; }
+                    }
+                    Err(e) => { if errored.is_some() { after.push(format!("next_row: {}", res_err(&e).split(' ').next().unwrap_or(""))); } else { errored = Some(res_err(&e)); } }
+                }
+            }
+        }
+        if after.iter().any(|x| x.contains("ok")) { Some(format!("first error {} ; then {}", errored.unwrap_or_default(), after.join(" , "))) } else { None }
+    });
+    match r {
+        Ok(None) => {}
+        Ok(Some(why)) => o.violation(viol("rows-or-frames-handed-out-after-the-error-for-an-invalid-structure", vec![("base", jstr(base)), ("injection", jstr(&inj.label)), ("bytes", jstr(&hex(&inj.bytes))), ("history", jstr(&why))])),
+        Err(m) => o.violation(viol("panic-on-invalid-stream", vec![("base", jstr(base)), ("injection", jstr(&inj.label)), ("bytes", jstr(&hex(&inj.bytes))), ("panic", jstr(&m))])),
+    }
+}
+
 pub fn run(a: &Args) {
     let mut o = Out::new(&a.out);
     let mut rng = Rng::new(a.seed);
@@ -404,9 +443,25 @@ pub fn run(a: &Args) {
         injs.push(bad_filter_file(&mut rng));
         for inj in &injs {
             check_injection(&mut o, &b.name, inj, opts, &base.frames);
+            check_polling_after_error(&mut o, &b.name, inj, opts);
             if inj.bytes.len() <= 500 && rng.chance(1, 6) {
                 let r = run_l0(&[inj.bytes.clone()], opts, None);
                 o.case(&format!("l0 {} {} 0 {}", opts.bits(), 67108864u64, hex(&inj.bytes)), &strip_d(&r.text), &inj.label, true);
+            }
+        }
+    }
+    // a frame that is too short, behind a frame with surplus rows whose tail the inflater releases only with the end-of-sequence flush
+    // (highly compressible frames a little above 32 / 64 KiB): the surplus of one frame must not complete the next one
+    for (w, producer) in [(15u32, 1u8), (63, 0), (15, 2), (31, 1)] {
+        for h in crate::gen::heights_just_above_buffer_sizes(w as usize + 1, if thorough { 6 } else { 3 }).into_iter().take(if thorough { 14 } else { 8 }) {
+            for (surplus, missing) in [(1u32, 1u32), (2, 1), (3, 3)] {
+                let good = crate::gen::held_back_tail_file(w, h, 2, producer, &[surplus, 0], &[]);
+                let base = summarize(&good.bytes, &[0], Opts::default(), 0);
+                if !(base.frame_ok(0) && base.frame_ok(1)) { o.notes.push(format!("held-back-tail base rejected: {}", good.name)); continue; }
+                let bad = crate::gen::held_back_tail_file(w, h, 2, producer, &[surplus, 0], &[0, missing]);
+                let inj = Inj { label: format!("frame-data-too-short-after-surplus#f1 {}", bad.name), bytes: bad.bytes.clone(), frame: Some(1) };
+                check_injection(&mut o, &good.name, &inj, Opts::default(), &base.frames);
+                check_polling_after_error(&mut o, &good.name, &inj, Opts::default());
             }
         }
     }
